@@ -16,6 +16,7 @@ def runAd (m : Dec α) (ad : String) (arg : Nat) (s : IterSt) : Option (List (Sc
   let fuel := 2 * s.rest.length + arg + 64 + (match s.left with | some n => min n 100000 | none => 0)
   match ad with
   | "all" => some (Script.all m fuel s)
+  | "allx" => some (Script.allx m 48 s)
   | "nth" => some (Script.nth m fuel arg s)
   | "skip" => some (Script.skip m fuel arg s)
   | "step" => if arg == 0 then none else some (Script.step m arg fuel 0 s)
